@@ -51,6 +51,8 @@ func acceptedWorkload(c *fw.Ctx, scale int, emit emitFn) {
 	// inheritance: an object with allOf, inside it an object with allOf, inside that one more - every combination of five
 	// rule values on three levels, in seven places (deterministic)
 	allOfGrid(emit)
+	// path variables described through a user type ("Path", "@p") and, for comparison, the same properties written in the Path body
+	pathVarsThroughType(emit)
 	// targeted generator
 	schemas := []string{
 		`{"id": 1}`, `{"id": "a"}`, `{"id": 1 // {min: 5}` + "\n}", `{"id": "abc" // {minLength: 10}` + "\n}", `{"id": @t}`, `{"id": @undefined}`,
@@ -176,6 +178,33 @@ func allOfGrid(emit emitFn) {
 					emit("allof-grid", singleJob(fmt.Sprintf("allof-%d", n), []byte(sb.String()), false))
 				}
 			}
+		}
+	}
+}
+
+// pathVarProps: properties a path variable schema may have (every scalar kind with a rule that shows in the catalog).
+var pathVarProps = []string{
+	"\"id\": 1", "\"id\": 1 // {min: 1}", "\"id\": \"x@y.z\" // {type: \"email\"}", "\"id\": \"2021-01-02\" // {type: \"date\"}", "\"id\": 5 // {type: \"any\"}",
+	"\"id\": 2.5 // {type: \"decimal\", precision: 1}", "\"id\": 1 // {or: [\"integer\", \"string\"]}", "\"id\": \"a\" // {or: [{type: \"string\", maxLength: 3}, {type: \"integer\"}]}",
+	"\"id\": \"x\" // {enum: @pe}", "\"id\": \"x\" // {enum: [\"x\", \"y\"]}", "\"id\": 12 // {type: \"@pt\"}", "\"id\": \"abc\" // {regex: \"^[a-c]+$\"}", "\"id\": \"abc\" // {minLength: 1, maxLength: 5}",
+	"\"id\": true", "\"id\": 1 // {const: true}", "\"id\": 1 /* a note */", "\"id\": 3 // {min: 1, exclusiveMinimum: true}",
+}
+
+// pathVarsThroughType emits, for every property, the direct form ("direct-<n>") and the form through a type ("through-type-<n>"),
+// at the method and at the URL.
+func pathVarsThroughType(emit emitFn) {
+	tail := "TYPE @pt\n  12\nENUM @pe\n  [\"x\", \"y\"]\n"
+	for n, prop := range pathVarProps {
+		for level := 0; level < 2; level++ {
+			head, ind := "GET /pv/{id}\n", "  "
+			rest := "  200 any\n"
+			if level == 1 {
+				head, rest = "URL /pv/{id}\n", "  GET\n    200 any\n  DELETE\n    204 empty\n"
+			}
+			direct := "JSIGHT 0.3\n" + head + ind + "Path\n" + ind + "  {\n" + ind + "    " + prop + "\n" + ind + "  }\n" + rest + tail
+			through := "JSIGHT 0.3\n" + head + ind + "Path\n" + ind + "  @pv\n" + rest + tail + "TYPE @pv\n  {\n    " + prop + "\n  }\n"
+			emit("path-vars", singleJob(fmt.Sprintf("direct-%d-%d", n, level), []byte(direct), false))
+			emit("path-vars", singleJob(fmt.Sprintf("through-type-%d-%d", n, level), []byte(through), false))
 		}
 	}
 }
